@@ -71,6 +71,12 @@ func genPairScenarios(tier string) []*Scenario {
 			for i := 0; i < len(f.ops); i++ {
 				for j := i; j < len(f.ops); j++ {
 					a, b := f.ops[i], f.ops[j]
+					// which member SPOP takes follows Go's map iteration order, which no seam owns: from a
+					// seed with two members the two replays of one schedule can differ in shape (the set is
+					// emptied or not) - such pairs start from the seeds where the choice is forced
+					if sn == "two" && (a[0] == "SPOP" || b[0] == "SPOP" || a[0] == "SRANDMEMBER" || b[0] == "SRANDMEMBER") {
+						continue
+					}
 					// (pairs of two reading commands are kept: a reader may maintain hidden state - a cache, a
 					// cursor - under the shared lock, which the free-running -race pass sees)
 					id := "pair:" + f.name + ":" + sn + ":" + strings.Join(a, " ") + " | " + strings.Join(b, " ")
